@@ -65,6 +65,8 @@ Record params := {
   p_lc_move : bool;         (* Set moves the line comment of a node that becomes a block collection *)
   p_key_lc : bool;          (* Set/Delete move the line comment of a key whose value is not a non-empty block collection *)
   p_rm_imports : bool;      (* env rm addresses "imports" from the root, as env set / env get do *)
+  p_rm_guard : bool;        (* env rm refuses an empty path itself (as env set does), before it reads the definition *)
+  p_rm_root : bool;         (* env rm deletes below "values" by Delete(root, "values" :: path), not Delete(valuesNode, path) *)
   p_del_empty : guard;      (* Delete with an empty path *)
   p_del_missing : guard     (* Delete through a key the mapping does not have *)
 }.
@@ -76,9 +78,11 @@ Definition style_of_code (c : N) : style_rule :=
 Definition guard_of_code (c : N) : guard :=
   if c =? 0 then GdNone else if c =? 1 then GdNoop else GdError.
 
-Definition mk_params (cc ck ct cv : bool) (style : N) (lcmove keylc rmimports : bool) (empty missing : N) : params :=
+Definition mk_params (cc ck ct cv : bool) (style : N) (lcmove keylc rmimports rmguard rmroot : bool)
+    (empty missing : N) : params :=
   {| p_copy_content := cc; p_copy_kind := ck; p_copy_tag := ct; p_copy_value := cv;
      p_style := style_of_code style; p_lc_move := lcmove; p_key_lc := keylc; p_rm_imports := rmimports;
+     p_rm_guard := rmguard; p_rm_root := rmroot;
      p_del_empty := guard_of_code empty;
      p_del_missing := guard_of_code missing |}.
 
@@ -417,17 +421,34 @@ Fixpoint wf (n : node) : bool :=
     end
   end.
 
-(* trees that yaml.v3 writes back with every comment where it was: a line comment only on scalars and on flow
-   collections (on a block collection it would be written after the next entry of the parent) *)
+(* trees that yaml.v3 writes back with every comment on the line it was on:
+   - a line comment sits only on scalars and on flow collections (on a block collection it would be written after
+     the next entry of the parent);
+   - the key of a mapping entry carries a line comment ("key: # comment") only if its value is a scalar (then the
+     comment is written after the scalar) or a non-empty block collection (then it is written after the colon).
+     With a flow collection the comment is written after the next entry; with an empty collection yaml.v3 writes
+     "key: # comment" and "{}" on the next line, which does not parse. *)
 Definition lc_ok (n : node) : bool :=
   match nkind n with
-  | KScalar | KAlias => true
-  | _ => st_flow (nstyle n) || String.eqb (nlc n) ""
+  | KSeq | KMap => st_flow (nstyle n) || String.eqb (nlc n) ""
+  | KZero => String.eqb (nlc n) ""       (* a node Set is about to turn into a block collection *)
+  | _ => true
   end.
+
+Definition key_lc_ok (k v : node) : bool :=
+  String.eqb (nlc k) "" || is_scalar v
+  || (is_coll v && negb (is_nil (ncontent v)) && negb (st_flow (nstyle v))).
+
+Fixpoint entries_ok (l : list node) : bool :=
+  match l with k :: v :: r => key_lc_ok k v && entries_ok r | _ => true end.
+
+Definition keys_lc_ok (n : node) : bool :=
+  match nkind n with KMap => entries_ok (ncontent n) | _ => true end.
 
 Fixpoint printable (n : node) : bool :=
   match n with
-  | Node k t s v h l f c => lc_ok (Node k t s v h l f []) && forallb printable c
+  | Node k t s v h l f c =>
+      lc_ok (Node k t s v h l f []) && keys_lc_ok (Node k t s v h l f c) && forallb printable c
   end.
 
 (* the root of a stored definition: a well-formed tree, or the zero node standing for an empty definition *)
@@ -444,9 +465,13 @@ Definition empty_map_node : node := Node KMap "" 0 "" "" "" "" [].
 Definition is_imports (a : acc) : bool :=
   match a with AKey k => String.eqb k imports_key | AIdx _ => false end.
 
-(* env_set.go, after the value has been prepared.  Setting below valuesNode (the node Get found or Set just
-   created under "values") is the same edit as Set from the root with "values" prepended: both take the first
-   "values" key. *)
+(* Both commands find the node under the first "values" key with Get and then call Set / Delete ON THAT NODE
+   (env_set.go, env_rm.go before the repair): the tree is changed in place below it, and the key "values" itself is
+   not on the path of that call, so nothing is done about the line comment of that key. *)
+Definition on_values (f : node -> result node) (root : node) : result node :=
+  rmap (with_content root) (upd_key values_key f (ncontent root)).
+
+(* env_set.go, after the value has been prepared *)
 Definition env_set (pr : params) (p : path) (v : node) (root : node) : result node :=
   match p with
   | [] => Err EEmptyPath
@@ -454,25 +479,22 @@ Definition env_set (pr : params) (p : path) (v : node) (root : node) : result no
       if is_imports a then yset pr p v root
       else
         match yget [AKey values_key] root with
-        | GFound _ => yset pr (AKey values_key :: p) v root
+        | GFound _ => on_values (yset pr p v) root
         | GMissing =>
             match yset pr [AKey values_key] empty_map_node root with
-            | Ok root' => yset pr (AKey values_key :: p) v root'
+            | Ok root' => on_values (yset pr p v) root'
             | r => r
             end
         | GPanic => Panic
         end
   end.
 
-(* env_rm.go: an empty definition or no "values" => nothing to do; otherwise Delete(valuesNode, path), which is
-   the same edit as Delete from the root with "values" prepended (for a non-empty path) *)
+(* env_rm.go: an empty definition or no "values" => nothing to do; otherwise Delete(valuesNode, path) or, with the
+   repair, Delete(root, "values" :: path) *)
 Definition env_rm_values (pr : params) (p : path) (root : node) : result node :=
   match yget [AKey values_key] root with
   | GFound _ =>
-      match p with
-      | [] => guard_result (p_del_empty pr) root EEmptyPath
-      | _ => ydelete pr (AKey values_key :: p) root
-      end
+      if p_rm_root pr then ydelete pr (AKey values_key :: p) root else on_values (ydelete pr p) root
   | GMissing => Ok root
   | GPanic => Panic
   end.
@@ -481,10 +503,12 @@ Definition rm_from_root (pr : params) (p : path) : bool :=
   match p with a :: _ => p_rm_imports pr && is_imports a | [] => false end.
 
 Definition env_rm (pr : params) (p : path) (root : node) : result node :=
-  match nkind root with
-  | KZero => Ok root
-  | _ => if rm_from_root pr p then ydelete pr p root else env_rm_values pr p root
-  end.
+  if p_rm_guard pr && is_nil p then Err EEmptyPath
+  else
+    match nkind root with
+    | KZero => Ok root
+    | _ => if rm_from_root pr p then ydelete pr p root else env_rm_values pr p root
+    end.
 
 (* the path of the definition an `env rm <p>` works on *)
 Definition rm_path (pr : params) (p : path) : path :=
